@@ -118,6 +118,17 @@ func genAuthReq(t *sim.Tape, pw string, cid int, i int) authReq {
 	return r
 }
 
+// replyingAuthHandler is an application AUTH handler: the server's own check, refusals sent as error replies.
+type replyingAuthHandler struct{ srv *redis.Server }
+
+func (h replyingAuthHandler) Auth(conn *redis.Conn, username string, password string) (*redis.Message, error) {
+	msg, err := h.srv.Auth(conn, username, password)
+	if err != nil {
+		return redis.NewErrorMessage(err), nil
+	}
+	return msg, nil
+}
+
 type authConn struct {
 	c    *client    // plain-port connection, or
 	tc   *tlsClient // TLS-port connection (real crypto/tls client, lock-step)
@@ -182,9 +193,18 @@ func runC08(t *testing.T, tape *sim.Tape, tier string) *Outcome {
 		o.stat("runs_with_tls_port", 1)
 	}
 	how := tape.Draw(4, "viarestart")
+	// a quarter of the runs: the application installs its own AUTH handler, which decides like the built-in one
+	// but reports a refusal the way the framework reports every other refusal - an error reply, no Go error
+	if tape.Draw(4, "appauth") == 3 {
+		cl.Srv.SetAuthCommandHandler(replyingAuthHandler{cl.Srv})
+		o.stat("runs_with_application_auth_handler", 1)
+	}
 	viaRestart := how == 0 || how == 1
 	rotated := how == 1 // generation 1 already had a (different) password
 	cl.Sticky = tape.Draw(4, "sticky")
+	// a quarter of the runs switch on the scheduling points that the build inserts in front of every lock
+	// acquisition and sync.Map access (interleavings finer than the hand-placed yield points)
+	cl.AutoYields = tape.Draw(4, "autoyields") == 3
 	// simulated time passes at seed-chosen moments between the other events (timeouts, deadlines and timers of the
 	// code under test fire against this clock)
 	for i := tape.Draw(4, "nticks"); i > 0; i-- {
